@@ -126,6 +126,31 @@ func c08Inputs(docs []vDoc, n int) [][]byte {
 	return out
 }
 
+// c08PadExtras: inputs for the pad sweep that depend on tokenizer-internal sizes - a text that
+// ends in a truncated multi-byte sequence directly after the last license word (with many 2-byte
+// runes earlier, so that whatever is left in the read buffer behind the data is a continuation
+// byte for some pad widths), and a text with more distinct words than any shipped document
+// (internal tables that are bounded or rebuilt at some size).
+func c08PadExtras(docs []vDoc) [][]byte {
+	d := docs[0]
+	body := strings.TrimRight(string(d.Bytes), " \t\r\n")
+	trunc := strings.Repeat("\u00e9 ", 400) + "\n" + body + "\xc3"
+	// the same with the small user document: what sits about one buffer length before the end of the
+	// input is the run of 2-byte runes
+	trunc2 := "zqaxav\n" + strings.Repeat("\u00e9 ", 420) + "\naa bb cc aa bb\xc3"
+	var sb strings.Builder
+	for i := 0; i < 4600; i++ {
+		sb.WriteString("v" + string(rune('a'+i%26)) + string(rune('a'+(i/26)%26)) + string(rune('a'+(i/676)%26)) + "q")
+		if i%11 == 10 {
+			sb.WriteByte('\n')
+		} else {
+			sb.WriteByte(' ')
+		}
+	}
+	big := sb.String() + "\n" + string(d.Bytes) + "\nzqbxav tail"
+	return [][]byte{[]byte(trunc), []byte(trunc2), []byte(big)}
+}
+
 func c08Chunks(c *vrep.Ctx) {
 	cl, docs := c08Classifier()
 	inputs := c08Inputs(docs, c.ParamInt("inputs", c.Pick(3, 10)))
@@ -180,9 +205,9 @@ func c08Chunks(c *vrep.Ctx) {
 
 func c08Pads(c *vrep.Ctx) {
 	cl, docs := c08Classifier()
-	inputs := c08Inputs(docs, c.Pick(3, 10))
+	inputs := append(c08Inputs(docs, c.Pick(3, 10)), c08PadExtras(docs)...)
 	maxPad := 2*1024 + 8
-	c.R.Rule = fmt.Sprintf("every pad width 0..%d of leading spaces x %d inputs (so that every multi-byte rune and invalid byte crosses the 1020/1024 buffer boundary in every phase); Match(pad+input) must equal Match(input) in every field; non-trivial = distinct (input, pad) cases whose result has a match", maxPad, len(inputs))
+	c.R.Rule = fmt.Sprintf("every pad width 0..%d of leading spaces x %d inputs (incl. one ending in a truncated multi-byte sequence right after the last license word and one with 4 600 distinct words) (so that every multi-byte rune and invalid byte crosses the 1020/1024 buffer boundary in every phase); Match(pad+input) must equal Match(input) in every field; non-trivial = distinct (input, pad) cases whose result has a match", maxPad, len(inputs))
 	c.Bound("max_pad", maxPad)
 	c.Bound("inputs", len(inputs))
 	want := make([]string, len(inputs))
